@@ -106,6 +106,20 @@ CHECKS = {
         "vertices are recorded, not asserted; the chromatic (normalised) clause asserts only the inside direction; hooks record "
         "the decision path.",
         "5/C03"),
+    "C06": (
+        "Lean 4 proof (soundness/attainment of the enumerated ends; LP weak duality for extremality) + exact model and per-instance dual certificates",
+        "Theorems in lean/Dreye/Props/C06.lean prove for every size and ordered field: every accepted candidate is a genuine "
+        "in-bound solution; if a candidate is accepted then for every source lb <= min <= max <= ub and both ends are attained "
+        "by feasible solutions; multipliers accepted by the verified checker bound the j-th intensity of EVERY feasible solution "
+        "(instances of lin_lower_sound); points of an affine line between two in-box parameters stay in the box (spaced "
+        "solutions). Every run computes the exact ends with the model in Q, certifies them extremal with LP-dual multipliers "
+        "(exactly tight), and compares dreye's (Xmin, Xmax, spaced solutions, raise / ignore / warn behaviour) for interior, "
+        "black, white, saturated, half-source, face and outside targets, on exactly representable and on decimal data. "
+        "(A full-strength theorem 'the enumeration always finds the extremes' is attempted separately in C06Exact.lean.)",
+        "Trusted: Lean kernel; np.linalg.solve is modelled by exact Gauss-Jordan and compared, not verified; HiGHS only supplies "
+        "untrusted dual hints; the in-gamut gate is C03's; float rounding is not modelled (decimal boundary targets are compared "
+        "at 1e-6 of the range and may legitimately be rejected by the gate); hooks record candidate counts.",
+        "5/C06"),
 }
 
 NOT_YET = "check not built yet in this round of work (planned in DESIGN.md section 5); no claim is made"
